@@ -23,6 +23,19 @@ def escape_family():
     return out
 
 
+def spelling_in_text_family():
+    """Every digraph and trigraph spelling inside every kind of textual token (string with and without prefix, character
+    constant, line comment, block comment), at the start, in the middle and at the end of its text."""
+    out = []
+    sp = ["<%", "%>", "<:", ":>", "%:", "%:%:", "??<", "??>", "??(", "??)", "??=", "??'", "??!", "??-", "??", "?", "<", "%"]
+    for c in sp:
+        for label, fmt in (("string", '"{}"'), ("wide-string", 'L"{}"'), ("u8-string", 'u8"{}"'), ("char", "'{}'"), ("wide-char", "L'{}'"),
+                           ("linecomment", "//{}\nz"), ("blockcomment", "/*{}*/")):
+            for where, body in (("alone", c), ("start", c + "ab"), ("mid", "a" + c + "b"), ("end", "ab" + c), ("twice", c + " " + c)):
+                out.append((f"spelling-in-text:{label}:{where}", "x = " + fmt.format(body) + " + y;\t/* k */ w\nnext"))
+    return out
+
+
 def geometry_family():
     """Multi-line tokens (block comments, strings with splices, line comments with splices) that start anywhere on a
     line, followed by more tokens on the line where they end."""
@@ -75,7 +88,7 @@ def keyword_family():
 
 
 def cases(tier, seed):
-    out = escape_family() + geometry_family() + badchar_family() + keyword_family()
+    out = escape_family() + geometry_family() + badchar_family() + keyword_family() + spelling_in_text_family()
     cs = carriers.conforming("quick", cap=10 if tier == "quick" else 60)
     from . import diffcommon
     files = [(e["fname"], e["text"], 12) for e in diffcommon.enriched()] + [(c["fname"], c["text"], 12) for c in cs]
